@@ -51,20 +51,20 @@ def _check_after(g, m, rec, pre, what):
         if m.pos[a] is not None:
             if pos[i] is None:
                 return V(f"{what}-machine-knows-axis-builder-does-not",
-                         f"axis {a}: machine at {m.pos[a]!r}, builder reports None; output={rec.text()!r}")
+                         lambda: f"axis {a}: machine at {m.pos[a]!r}, builder reports None; output={rec.text()!r}")
             if not num_eq(m.pos[a], pos[i]):
                 return V(f"{what}-position-mismatch",
-                         f"axis {a}: machine at {m.pos[a]!r}, builder reports {pos[i]!r}; "
+                         lambda: f"axis {a}: machine at {m.pos[a]!r}, builder reports {pos[i]!r}; "
                          f"output={rec.text()!r}")
     if tuple(g.state.position) != tuple(pos) and not all(
             num_eq(x, y) for x, y in zip(g.state.position, pos)):
         return V(f"{what}-state-position-differs",
-                 f"builder.position={tuple(pos)!r} state.position={tuple(g.state.position)!r}")
+                 lambda: f"builder.position={tuple(pos)!r} state.position={tuple(g.state.position)!r}")
     if g.distance_mode.value != g.state.distance_mode.value:
-        return V(f"{what}-state-mode-differs", f"{g.distance_mode} vs {g.state.distance_mode}")
+        return V(f"{what}-state-mode-differs", lambda: f"{g.distance_mode} vs {g.state.distance_mode}")
     if (g.distance_mode.value == "relative") != m.relative:
         return V(f"{what}-distance-mode-mismatch",
-                 f"builder reports {g.distance_mode.value}, machine relative={m.relative}; "
+                 lambda: f"builder reports {g.distance_mode.value}, machine relative={m.relative}; "
                  f"output={rec.text()!r}")
     return None
 
@@ -95,7 +95,7 @@ def _make_motion(entry, prepat, argpat, rel, form):
         m = machine_for(pre, rec)
         e = _do_entry(g, entry, args, form)
         if e is not None:
-            return V(f"{entry}-unexpected-exception", f"{exc_name(e)}: {e} (pos={pos!r}, args={args!r})")
+            return V(f"{entry}-unexpected-exception", lambda: f"{exc_name(e)}: {e} (pos={pos!r}, args={args!r})")
         reached("emitted")
         return _check_after(g, m, rec, pre, entry)
     return h
@@ -109,9 +109,9 @@ def _make_mode(target, prepat, rel):
         m = machine_for(pre, rec)
         e = attempt(g.set_distance_mode, target)
         if e is not None:
-            return V("set_distance_mode-unexpected-exception", f"{exc_name(e)}: {e}")
+            return V("set_distance_mode-unexpected-exception", lambda: f"{exc_name(e)}: {e}")
         if (g.distance_mode.value == "relative") != (target == "relative"):
-            return V("set_distance_mode-not-applied", f"mode is {g.distance_mode}")
+            return V("set_distance_mode-not-applied", lambda: f"mode is {g.distance_mode}")
         reached("emitted")
         return _check_after(g, m, rec, pre, "set_distance_mode")
     return h
@@ -177,14 +177,14 @@ def _make_ctx(kind, prepat, argpat, rel, inner_entry):
         except _Boom:
             pass
         except Exception as e:  # noqa: BLE001
-            return V(f"ctx-{kind}-unexpected-exception", f"{exc_name(e)}: {e}")
+            return V(f"ctx-{kind}-unexpected-exception", lambda: f"{exc_name(e)}: {e}")
         for x in err:
             if isinstance(x, V):
                 return x
-            return V(f"ctx-{kind}-body-unexpected-exception", f"{exc_name(x)}: {x}")
+            return V(f"ctx-{kind}-body-unexpected-exception", lambda: f"{exc_name(x)}: {x}")
         if (g.distance_mode.value == "relative") != rel:
             return V(f"ctx-{kind}-mode-not-restored",
-                     f"entered in {'relative' if rel else 'absolute'}, left in {g.distance_mode.value}")
+                     lambda: f"entered in {'relative' if rel else 'absolute'}, left in {g.distance_mode.value}")
         reached("emitted")
         return _check_after(g, m, rec, pre, f"ctx-{kind}")
     return h
